@@ -220,11 +220,28 @@ func c07Rotate(c *Ctx) {
 			}
 		}
 		c.Check(ok, "rotate-reopens", "rotate ends with reopen", p.Pos(rot.Pos()), "", "rotate does not continue with a freshly opened file")
+		// the written-bytes counter: the integer field Write advances (field += n), whatever it is called
+		posField := "pos"
+		if wr := p.Method(fileRel, "rotateFile", "Write"); wr != nil {
+			for _, b := range wr.Blocks {
+				for _, in := range b.Instrs {
+					if st, isS := in.(*ssa.Store); isS {
+						if fa, isF := st.Addr.(*ssa.FieldAddr); isF && fa.X == ssa.Value(wr.Params[0]) {
+							if bo, isB := st.Val.(*ssa.BinOp); isB && bo.Op == token.ADD {
+								if _, same := isFieldLoadNamed(bo.X, fieldNameOf(fa)); same {
+									posField = fieldNameOf(fa)
+								}
+							}
+						}
+					}
+				}
+			}
+		}
 		posReset := false
 		for _, b := range reopen.Blocks {
 			for _, in := range b.Instrs {
 				if st, isS := in.(*ssa.Store); isS {
-					if fa, isF := st.Addr.(*ssa.FieldAddr); isF && fieldNameOf(fa) == "pos" {
+					if fa, isF := st.Addr.(*ssa.FieldAddr); isF && fieldNameOf(fa) == posField {
 						if k, isC := ConstInt(st.Val); isC && k == 0 {
 							posReset = true
 						}
